@@ -234,3 +234,27 @@ func VP_C20_Transformed() {
 	vp.Assert(vp.All(q.X >= bmin.X, q.Y >= bmin.Y, q.Z >= bmin.Z, q.X <= bmax.X, q.Y <= bmax.Y, q.Z <= bmax.Z), "wrapper bounds enclose the image of the original bounds")
 	vp.Reach("end")
 }
+
+// VP_C20_CameraAt: NewCameraAt(source, dest) looks from source towards dest:
+// the centre ray is a positive multiple of dest-source and the screen axes
+// are orthonormal. The viewing direction ranges over a menu (including the
+// degenerate +z / -z cases), scaled by a symbolic positive distance; the
+// source point is symbolic.
+func VP_C20_CameraAt() {
+	dirs := []model3d.Coord3D{model3d.Z(1), model3d.Z(-1), model3d.X(1), model3d.Y(-1), model3d.XYZ(0, 3, 4), model3d.XYZ(2, -1, 2)}
+	dir := dirs[vp.Param("dir")]
+	src := vpPoint("source")
+	dist := vp.Float64("dist")
+	vp.Assume(dist > 0.01)
+	dst := src.Add(dir.Scale(dist))
+	cam := NewCameraAt(src, dst, 0)
+	vp.Assert(vpEqC(cam.Origin, src), "camera sits at the source point")
+	vp.AssertNear(cam.ScreenX.Dot(cam.ScreenX), 1, 1e-9, "ScreenX is a unit vector")
+	vp.AssertNear(cam.ScreenY.Dot(cam.ScreenY), 1, 1e-9, "ScreenY is a unit vector")
+	vp.AssertNear(cam.ScreenX.Dot(cam.ScreenY), 0, 1e-9, "screen axes are orthogonal")
+	c := cam.Caster(4, 4)(2, 2)
+	cr := c.Cross(dir)
+	vp.AssertNear(cr.Dot(cr), 0, 1e-9, "the centre ray is parallel to dest - source")
+	vp.Assert(c.Dot(dir) > 0, "the centre ray points from the source towards the destination")
+	vp.Reach("end")
+}
